@@ -57,7 +57,7 @@ Proof. intros H. pose proof (all_range_spec _ _ _ repr_range_sweep n H) as E. cb
 
 (* ================= durations: float64 writers = integer writers ================= *)
 
-Lemma dur_float_int sec : 0 <= sec <= 359999 ->
+Lemma dur_float_int sec : 0 <= sec <= 86399 ->
   enc_dvb_duration_seconds_float (sec * ns_second) = enc_dvb_duration_seconds (sec * ns_second) /\
   enc_dvb_duration_minutes_float (sec * ns_second) = enc_dvb_duration_minutes (sec * ns_second).
 Proof.
@@ -142,19 +142,20 @@ Proof.
   unfold bcd_byte. f_equal; [|f_equal]; apply Z.mod_small; lia.
 Qed.
 
-Lemma spec_duration_range h m s : 0 <= h <= 99 -> 0 <= m <= 59 -> 0 <= s <= 59 ->
-  0 <= tod_seconds h m s <= 359999.
+Lemma spec_duration_range h m s : 0 <= h <= 23 -> 0 <= m <= 59 -> 0 <= s <= 59 ->
+  0 <= tod_seconds h m s <= 86399.
 Proof. unfold tod_seconds. lia. Qed.
 
-(* the same for the float64 model of the two writers *)
-Lemma enc_duration_float_bytes h m s : 0 <= h <= 99 -> 0 <= m <= 59 -> 0 <= s <= 59 ->
+(* the same for the float64 model of the two writers, for the 86400 seconds of a day (for all durations
+   below 100 h the float64 expressions are shown equal to the integer ones in DvbDuration100hProofs.v) *)
+Lemma enc_duration_float_bytes h m s : 0 <= h <= 23 -> 0 <= m <= 59 -> 0 <= s <= 59 ->
   bytes_of_items (enc_dvb_duration_seconds_float (spec_duration_ns h m s)) = [bcd_byte h; bcd_byte m; bcd_byte s] /\
   bytes_of_items (enc_dvb_duration_minutes_float (spec_duration_ns h m s)) = [bcd_byte h; bcd_byte m].
 Proof.
   intros Hh Hm Hs. pose proof (spec_duration_range h m s Hh Hm Hs) as Hr.
   destruct (dur_float_int (tod_seconds h m s) Hr) as [E1 E2].
   unfold spec_duration_ns. change ns_per_second with ns_second. rewrite E1, E2.
-  split; [apply (enc_duration_seconds_bytes h m s)|apply (enc_duration_minutes_bytes h m s)]; assumption.
+  split; [apply (enc_duration_seconds_bytes h m s)|apply (enc_duration_minutes_bytes h m s)]; (assumption || lia).
 Qed.
 
 Example enc_duration_example :
@@ -424,7 +425,7 @@ Lemma thm_float_model_all_words : forall mjd, 0 <= mjd <= 65535 ->
   DvbFloat.mjd_to_ymd_float mjd = dvb_ymd mjd /\ DvbFloat.dvb_date_unix_float mjd = dvb_date_unix mjd.
 Proof. intros mjd H. split; [apply decode_float_int|apply decode_unix_float_int]; exact H. Qed.
 
-Lemma thm_calendar : forall mjd, 15079 <= mjd <= 88127 ->
+Lemma thm_calendar : forall mjd, 15079 <= mjd <= 65535 ->
   civil_of_mjd (mjd + 1) = next_day (civil_of_mjd mjd) /\ valid_date (civil_of_mjd mjd) = true /\
   mjd_of_civil (civil_of_mjd mjd) = mjd /\
   annex_c_ymd mjd = civil_of_mjd mjd /\ annex_c_mjd (civil_of_mjd mjd) = mjd.
@@ -505,11 +506,14 @@ Proof. split; [exact decode_duration_seconds|exact decode_duration_minutes]. Qed
 Lemma thm_durations_encode : forall h m s, 0 <= h <= 99 -> 0 <= m <= 59 -> 0 <= s <= 59 ->
   bytes_of_items (enc_dvb_duration_seconds (spec_duration_ns h m s)) = [bcd_byte h; bcd_byte m; bcd_byte s] /\
   bytes_of_items (enc_dvb_duration_minutes (spec_duration_ns h m s)) = [bcd_byte h; bcd_byte m] /\
-  bytes_of_items (enc_dvb_duration_seconds_float (spec_duration_ns h m s)) = [bcd_byte h; bcd_byte m; bcd_byte s] /\
-  bytes_of_items (enc_dvb_duration_minutes_float (spec_duration_ns h m s)) = [bcd_byte h; bcd_byte m].
+  (h <= 23 ->
+   bytes_of_items (enc_dvb_duration_seconds_float (spec_duration_ns h m s)) = [bcd_byte h; bcd_byte m; bcd_byte s] /\
+   bytes_of_items (enc_dvb_duration_minutes_float (spec_duration_ns h m s)) = [bcd_byte h; bcd_byte m]).
 Proof.
-  intros h m s Hh Hm Hs. destruct (enc_duration_float_bytes h m s Hh Hm Hs) as [A B].
-  repeat split; [apply enc_duration_seconds_bytes|apply (enc_duration_minutes_bytes h m s)|exact A|exact B]; assumption.
+  intros h m s Hh Hm Hs.
+  split; [apply enc_duration_seconds_bytes; assumption|].
+  split; [apply (enc_duration_minutes_bytes h m s); assumption|].
+  intros H23. apply (enc_duration_float_bytes h m s); (assumption || lia).
 Qed.
 
 Lemma thm_durations_roundtrip : forall h m s rest, 0 <= h <= 99 -> 0 <= m <= 59 -> 0 <= s <= 59 ->
